@@ -62,11 +62,24 @@ def trajQuery (cx : TrajCtx) (q : Json) : Except String Json := do
     return resJson (fun o => match o with | some n => Json.num ⟨(n : Int), 0⟩ | none => Json.null) r
   | k => throw s!"unknown trajectory query {k}"
 
-/-- `{"op":"traj","ns":..,"nc":..,"ts":[..],"tu":units,"data":[..],"du":units,"labels":[..],"space":{..},"queries":[..]}` -/
+def getTrajEdit (j : Json) : Except String TrajEdit := do
+  match fieldOpt j "data", fieldOpt j "ts", fieldOpt j "du" with
+  | some d, _, _ => return .data (← getRatList d)
+  | _, some t, _ => return .times (← getRatList t)
+  | _, _, some u => return .dataUnits (← getUnits u)
+  | _, _, _ => throw "trajectory edit needs data | ts | du"
+
+/-- `{"op":"traj","ns":..,"nc":..,"ts":[..],"tu":units,"data":[..],"du":units,"labels":[..],"space":{..},"queries":[..]}`;
+optional `"edits":[{"data":[..]} | {"ts":[..]} | {"du":units}, …]` = edits made after construction (and after earlier reads),
+oldest first; the queries are answered on the edited trajectory -/
 def opTraj : Handler := fun j => do
-  let tr : Traj := { ns := ← getNat (← field j "ns"), nc := ← getNat (← field j "nc"),
-                     ts := ← getRatList (← field j "ts"), tu := ← getUnits (← field j "tu"),
-                     data := ← getRatList (← field j "data"), du := ← getUnits (← field j "du") }
+  let tr0 : Traj := { ns := ← getNat (← field j "ns"), nc := ← getNat (← field j "nc"),
+                      ts := ← getRatList (← field j "ts"), tu := ← getUnits (← field j "tu"),
+                      data := ← getRatList (← field j "data"), du := ← getUnits (← field j "du") }
+  let es ← match fieldOpt j "edits" with
+    | some e => (← getArr e).mapM getTrajEdit
+    | none => pure []
+  let tr := tr0.edits es
   let cx : TrajCtx := { tr := tr, labels := ← getStrList (← field j "labels"), space := ← getSpaceKind (← field j "space") }
   let rs ← (← getArr (← field j "queries")).mapM (trajQuery cx)
   return Json.mkObj [("ok", Json.arr rs.toArray)]
